@@ -154,7 +154,7 @@ class C15(HistoryCampaign):
                 s["entry"] = rnd.choice(["irun", "srun"])
             sc["precreate"] = True
         sc["recorders"] = [rnd.choice(INTERVALS) for _ in range(rnd.randint(1, 4))]
-        files = {"logging_interval": rnd.choice([1, 1, 2, 3]), "logging_mode": rnd.choice(["a", "w"])}
+        files = {"logging_interval": rnd.choice([1, 1, 2, 3, 5, -1, -2, -4]), "logging_mode": rnd.choice(["a", "w"])}
         for role in ("logfile", "trajectory", "restart_file"):
             if rnd.random() < 0.6 and not (role == "restart_file" and sc["driver"] in ("ForceBias", "AdaptiveForceBias")):
                 files[role] = {"name": role, "as": "object", "mode": files["logging_mode"]}
@@ -216,7 +216,15 @@ class C15(HistoryCampaign):
                 nrows = len([l for l in lines[1:] if l.strip()])
                 if nrows != len(expected_calls(li, n)):
                     res.violations.append(Violation("C15", "log_row_count", f"{ctx if label == 'split' else f'driver={drv}|split=single_call'}",
-                                                    f"{label}: {nrows} rows, expected {len(expected_calls(li, n))}"))
+                                                    f"{label}: {nrows} rows, expected {len(expected_calls(li, n))} for logging_interval {li}"))
+            traj = ex["files"].get("trajectory")
+            if traj is not None:
+                li = sc["files"]["logging_interval"]
+                import re as _re
+                nframes = len(_re.findall(r"^\d+\n", traj, flags=_re.M))
+                if nframes != len(expected_calls(li, n)):
+                    res.violations.append(Violation("C15", "trajectory_frame_count", f"{ctx if label == 'split' else f'driver={drv}|split=single_call'}",
+                                                    f"{label}: {nframes} frames, expected {len(expected_calls(li, n))} for logging_interval {li}"))
         # (2) splitting changes nothing
         for key in ("step_count", "positions", "cell", "numbers"):
             if split[key] != single[key]:
